@@ -1,6 +1,7 @@
 """C03 - exporters are driven one call at a time and within the configured batch bounds."""
 from ..ir import AnalysisBroken, strip_targs, qmatch
 from ..graph import Graph
+from ..symb import feasible_reach
 from ..expr import access_path, path_str, held_locks, reaching_defs, defs_in_node, leaves, origins, norm_cond
 from ..callgraph import CallGraph
 from .common import (Roles, EXPORTER_EXPORT, same_class_inline, member_funcs, nonzero_polarity, comparison,
@@ -505,7 +506,22 @@ def rule_r3_r4(ck, prog, cg, roles):
                         if pol is not None and pol == lab[2]:
                             return True
                     return False
-                if g.must_pass_edge(ep, nz_edge):
+                def zero_pins():
+                    # scenario "the batch count is zero": every test of the count is pinned to its zero outcome; a flag that
+                    # carries the outcome (`drained = (n == 0); if (!drained)`) is folded by the path explorer
+                    pins = {}
+                    for c_ in g.ctxs:
+                        for m in c_.f.nodes:
+                            if m['k'] not in ('binop', 'unop', 'call', 'cast'):
+                                continue
+                            for _vid in vids:
+                                pol = nonzero_polarity(c_.f, m['i'], _vid)
+                                if pol is not None:
+                                    pins[(id(c_.f), m['i'])] = (not pol)
+                    return pins
+                _uc = g.unit_ctx(ep.ctx, exports)
+                _start = g.ctx_bounds.get(id(_uc), (g.entry, None))[0]      # the procedure the cycle runs in (inlined copy)
+                if g.must_pass_edge(ep, nz_edge) or (zero_pins() and feasible_reach(g, [_start], [ep], pins=zero_pins(), limit=200000) is None):
                     ck.holds('C03.R4', ep.f, site4, ep.n, 'Export dominated by the non-zero outcome of a test of %s' % cn['name'])
                 else:
                     pth = g.path(g.entry, ep, avoid_edges=nz_edge)
